@@ -24,7 +24,7 @@ manifest = {
     "version": 1,
     "setup_cmd": "true",
     "hooks": {"guard": "JELLYFYSH_VERIF", "enable": "no hooks in /repo are needed: every seam is harness-side (constructor-injected collaborators, module-level names, public methods); checks copy /repo/jellyfysh to a scratch directory and build the cffi extensions there",
-              "baseline_off_cmd": "cd /repo && /venv/bin/python setup.py -q build_ext -i && /venv/bin/python -m pytest -ra -q -p no:cacheprovider --timeout=900 --continue-on-collection-errors",
+              "baseline_off_cmd": "cd /repo && for s in jellyfysh/scheduler/heap_scheduler/heap_build.py jellyfysh/potential/merged_image_coulomb_potential/merged_image_coulomb_potential_build.py jellyfysh/potential/inverse_power_coulomb_bounding_potential/inverse_power_coulomb_bounding_potential_build.py; do /venv/bin/python $s >/dev/null || exit 1; done && /venv/bin/python -m pytest -ra -q -p no:cacheprovider --timeout=900 --continue-on-collection-errors",
               "source_commits": [], "add_only": True},
     "engines": json.load(open("/verif/dst/engines.json")),
     "checks": checks,
